@@ -21,7 +21,31 @@ pub fn cleanup() {
 /// Ok(stdout) or Err(reason); a REPL that does not finish within `TIMEOUT` is killed ("hang")
 const TIMEOUT: std::time::Duration = std::time::Duration::from_secs(20);
 
+/// A first time-out may be an artefact of machine load (many REPL processes are started in
+/// parallel): the run is repeated alone, under a lock, with a six times longer limit, and only a
+/// second time-out counts as "hang". After three confirmed hangs the retry is dropped (a tree
+/// whose REPL really hangs would otherwise cost minutes per case).
+static RETRY: std::sync::Mutex<()> = std::sync::Mutex::new(());
+static CONFIRMED_HANGS: std::sync::atomic::AtomicU64 = std::sync::atomic::AtomicU64::new(0);
+pub static RETRIES: std::sync::atomic::AtomicU64 = std::sync::atomic::AtomicU64::new(0);
+
 pub fn run_repl_full(lines: &[String]) -> Result<String, String> {
+    use std::sync::atomic::Ordering::Relaxed;
+    match run_repl_once(lines, TIMEOUT) {
+        Err(e) if e == "hang" && CONFIRMED_HANGS.load(Relaxed) < 3 => {
+            let _g = RETRY.lock().unwrap_or_else(|p| p.into_inner());
+            RETRIES.fetch_add(1, Relaxed);
+            let r = run_repl_once(lines, TIMEOUT * 6);
+            if matches!(&r, Err(e) if e == "hang") {
+                CONFIRMED_HANGS.fetch_add(1, Relaxed);
+            }
+            r
+        }
+        r => r,
+    }
+}
+
+fn run_repl_once(lines: &[String], limit: std::time::Duration) -> Result<String, String> {
     use std::io::Read;
     let exe = std::env::current_exe().map_err(|e| e.to_string())?;
     let dir = scratch_dir();
@@ -59,7 +83,7 @@ pub fn run_repl_full(lines: &[String]) -> Result<String, String> {
                 return Ok(String::from_utf8_lossy(&buf).to_string());
             }
             Ok(None) => {
-                if start.elapsed() > TIMEOUT {
+                if start.elapsed() > limit {
                     let _ = child.kill();
                     let _ = child.wait();
                     let _ = reader.join();
